@@ -2,28 +2,24 @@
    without ones and the empty vector.
    Pinned statements only; proofs are in Proofs/SALemmas.v, Proofs/SAMain.v (on top of the
    Elias-Fano proofs EFRep / EFQueries / EFIter / EFBuilder and the unary iterator UnaryIter).
-   The DArray layer (Model/DArray.v) enters through two explicit premises, stated here in full
-   and discharged by its own proofs.
+   The two premises about the DArray layer (Model/DArray.v) under which Proofs/SAMain.v is stated
+   are theorems of that layer; they are discharged in Proofs/Integration.v, and the closed
+   versions pinned here come from Proofs/Integration2.v.
    Every query argument is an arbitrary N (in particular every usize). *)
 From Sucds Require Import Base.Res Spec.BitSpec Spec.SeqSpec
   Model.BitVector Model.DArray Model.EliasFano Model.SArray
-  Proofs.BVAbs Proofs.IndexSpecs Proofs.EFRep Proofs.EFBuilder Proofs.SALemmas Proofs.SAMain.
+  Proofs.BVAbs Proofs.IndexSpecs Proofs.EFRep Proofs.EFBuilder Proofs.SALemmas Proofs.SAMain
+  Proofs.Integration2.
 Open Scope N_scope.
 
 (* C03, end to end: for every well-formed bit vector within the memory bound, with or without
    enable_rank: from_bits [+ enable_rank] succeeds with the same value s in every build
    configuration; num_bits / num_ones are those of the bits; access and select1 agree with the
    plain bit sequence; with the rank index so do rank1, rank0, predecessor1, successor1.
-   The third premise is the capacity of the Elias-Fano layer (high part m + 2 + u / 2^l bits, low
+   The premise is the capacity of the Elias-Fano layer (high part m + 2 + u / 2^l bits, low
    part m * l bits, both below 2^56; m ones, u bits, l = low_len_of u m); it is needed only
    when the vector has a one. *)
 Theorem C03 :
-  (forall bits, lenN bits < 2 ^ 56 ->
-     exists d, (forall c, da_from_bits c bits = Ok d) /\ bits_of (da_bv d) = bits /\
-               da_s0 d = None /\ da_r9 d = None /\ (forall c, da_correct c d)) ->
-  (forall d, (forall c, da_correct c d) -> cap_ok (da_bv d) ->
-     exists d', (forall c, da_enable_select0 c d = Ok d') /\ da_bv d' = da_bv d /\
-                da_s0 d' <> None /\ da_r9 d' = da_r9 d /\ (forall c, da_correct c d')) ->
   forall bv (with_rank : bool), wf bv -> cap_ok bv ->
   (1 <= count true (bits_of bv) ->
      count true (bits_of bv) + 2
@@ -40,17 +36,11 @@ Theorem C03 :
        sa_rank0 c s p = Ok (BitSpec.rank false b p) /\
        sa_predecessor1 c s p = Ok (BitSpec.pred true b p) /\
        sa_successor1 c s p = Ok (BitSpec.succ true b p)).
-Proof. exact sa_correct. Qed.
+Proof. exact sa_correct_closed. Qed.
 Print Assumptions C03.
 
 (* the same for every vector shorter than 2^55 - 1 bits: the capacity premise follows *)
 Theorem C03_small :
-  (forall bits, lenN bits < 2 ^ 56 ->
-     exists d, (forall c, da_from_bits c bits = Ok d) /\ bits_of (da_bv d) = bits /\
-               da_s0 d = None /\ da_r9 d = None /\ (forall c, da_correct c d)) ->
-  (forall d, (forall c, da_correct c d) -> cap_ok (da_bv d) ->
-     exists d', (forall c, da_enable_select0 c d = Ok d') /\ da_bv d' = da_bv d /\
-                da_s0 d' <> None /\ da_r9 d' = da_r9 d /\ (forall c, da_correct c d')) ->
   forall bv (with_rank : bool), wf bv -> bv_len bv + 1 < 2 ^ 55 ->
   let b := bits_of bv in
   exists s,
@@ -63,7 +53,7 @@ Theorem C03_small :
        sa_rank0 c s p = Ok (BitSpec.rank false b p) /\
        sa_predecessor1 c s p = Ok (BitSpec.pred true b p) /\
        sa_successor1 c s p = Ok (BitSpec.succ true b p)).
-Proof. exact sa_correct_small. Qed.
+Proof. exact sa_correct_small_closed. Qed.
 Print Assumptions C03_small.
 
 Theorem C03_capacity_small : forall bv, wf bv -> bv_len bv + 1 < 2 ^ 55 ->
@@ -80,20 +70,25 @@ Print Assumptions C03_capacity_small.
 
 (* construction yields the invariant *)
 Theorem C03_build :
-  (forall bits, lenN bits < 2 ^ 56 ->
-     exists d, (forall c, da_from_bits c bits = Ok d) /\ bits_of (da_bv d) = bits /\
-               da_s0 d = None /\ da_r9 d = None /\ (forall c, da_correct c d)) ->
-  (forall d, (forall c, da_correct c d) -> cap_ok (da_bv d) ->
-     exists d', (forall c, da_enable_select0 c d = Ok d') /\ da_bv d' = da_bv d /\
-                da_s0 d' <> None /\ da_r9 d' = da_r9 d /\ (forall c, da_correct c d')) ->
   forall bv (with_rank : bool), wf bv -> cap_ok bv -> sa_cap bv ->
   exists s,
     (forall c, (s0 <- sa_from_bv c bv ;; if with_rank then sa_enable_rank c s0 else Ok s0) = Ok s) /\
     sa_rep s (bits_of bv) /\ sa_has_rank s = with_rank.
-Proof. exact sa_build_ok. Qed.
+Proof. exact sa_build_ok_closed. Qed.
 Print Assumptions C03_build.
 
-(* the queries from the invariant alone (no premise on the DArray layer) *)
+(* the two steps separately: from_bits (no rank index), enable_rank (keeps the invariant) *)
+Theorem C03_from_bits : forall bv, wf bv -> cap_ok bv -> sa_cap bv ->
+  exists s, (forall c, sa_from_bv c bv = Ok s) /\ sa_rep s (bits_of bv) /\ sa_has_rank s = false.
+Proof. exact sa_from_bv_ok_closed. Qed.
+Print Assumptions C03_from_bits.
+
+Theorem C03_enable_rank : forall s b, sa_rep s b ->
+  exists s', (forall c, sa_enable_rank c s = Ok s') /\ sa_rep s' b /\ sa_has_rank s' = true.
+Proof. exact sa_enable_rank_ok_closed. Qed.
+Print Assumptions C03_enable_rank.
+
+(* the queries from the invariant alone *)
 Theorem C03_access : forall s b, sa_rep s b ->
   forall c i, sa_access c s i = Ok (BitSpec.access b i).
 Proof. exact sa_access_spec. Qed.
